@@ -217,6 +217,17 @@ def _r1b(run, mi):
             continue
         # whatever the local is called (a helper that resolves the rate sets is expanded with renamed locals)
         loads = [st for t, v, st in stores(fn) if isinstance(t, ast.Name) and isinstance(v, ast.Call) and dotted(v.func) == 'get_rates_tcx']
+        if not loads and not any(isinstance(c, ast.Call) and dotted(c.func) == 'get_rates_tcx' for c in ast.walk(fn)):
+            # the donor is neither resolved here nor handed to a function of the module that could resolve it, yet a CX rate set is used
+            internal = [c for c in ast.walk(fn) if isinstance(c, ast.Call) and dotted(c.func) in mi.functions]
+            forwards = any(isinstance(n, ast.Name) and n.id == 'tcx_donor' for c in internal for a in list(c.args) + [k.value for k in c.keywords]
+                           for n in ast.walk(a))
+            uses = any(isinstance(n, ast.Name) and n.id == 'coef_tcx' and isinstance(n.ctx, ast.Load) for n in ast.walk(fn))
+            if uses and not forwards and internal:
+                run.subject('C09-R1b')
+                run.fail('C09-R1b', '%s|%s|never-loaded' % (MOD, name), FILE, fn.lineno,
+                         "%s takes a CX donor and uses a CX rate set but never loads one (no get_rates_tcx call, and the donor is not handed to a "
+                         "function of the module that could): a donor given without a rate set is silently ignored" % name)
         for st in loads:
             run.subject('C09-R1b')
             g = guards_of(fn, st) or []
@@ -368,7 +379,13 @@ def _r3(run, mi):
                  'charge-state densities are %s, expected fractional abundance * %s' % (got.key(), ps[2]))
     fn = mi.functions['_match_element_density_point']
     run.subject('C09-R3')
-    got = _scaling_value(fn)
+    try:
+        got = _scaling_value(fn)
+    except ZeroDivisionError:
+        run.fail('C09-R3', K + '_match_element_density_point|scaling', FILE, fn.lineno,
+                 '_match_element_density_point divides by a quantity that is identically zero on every path (the charge sum of the fractional '
+                 'abundance is never accumulated)')
+        return
     ps = params_of(fn)
     nsp, ne = ps[2], ps[3]
     want = L('FA') * (L('CLAMP0(%s)' % (L(ne) - L('Q(%s[*])' % nsp)).key()) / L('Q(FA)'))
